@@ -270,7 +270,7 @@ func (p *Pool) explore(harness string, params map[string]int, opt ExploreOpts) *
 					if !violSeen[key] {
 						violSeen[key] = true
 						sum.Viol = append(sum.Viol, v)
-					} else if sum.ViolCount[key] <= 8 {
+					} else if sum.ViolCount[key] <= 40 {
 						sum.MoreViol = append(sum.MoreViol, fmt.Sprintf("%s %q inputs=%v", v.Kind, v.Label, v.Inputs))
 					}
 				}
